@@ -642,6 +642,10 @@ def run(ctx):
     ctx.model(r, "HeartbeatMC (atomic compare-and-set)")
     r = tlc.expect_violation("HeartbeatMC", "HeartbeatMC_sqlite", "FailedByAtMostOne", timeout=600)
     ctx.model(r, "HeartbeatMC_sqlite (SELECT and UPDATE separate: expected to violate FailedByAtMostOne, K1)")
+    r = tlc.require_model("HeartbeatClock", "HeartbeatClock_q", must_cover=["Start", "Beat", "Die", "Tick", "Sweep"], timeout=600)
+    ctx.model(r, "HeartbeatClock (one database clock, strictly-older-than-grace: a worker beating in time is never failed)")
+    r = tlc.expect_violation("HeartbeatClock", "HeartbeatClock_ge", "LiveNeverFailed", timeout=600)
+    ctx.model(r, "HeartbeatClock_ge (age >= grace counts as stale: expected to fail a live worker whose beat is one interval late)")
     n_seq, n_conc = (96, 96) if ctx.quick else (1200, 1200)
     tasks = [("seq", [ctx.seed * 100000 + i for i in range(n_seq)][k::8]) for k in range(8)]
     tasks += [("conc", [ctx.seed * 100000 + 50000 + i for i in range(n_conc)][k::8]) for k in range(8)]
